@@ -39,16 +39,21 @@ def int_mm(input: torch.Tensor, other: torch.Tensor) -> torch.Tensor:
 
     torch._int_mm infers the memory layout of its operands from their strides: it returns garbage when they are
     ambiguous (a dimension of size 1 obtained by transposition, e.g. a single row or a single input feature) or
-    when the first operand is not laid out row by row (transposed or expanded views).
+    when an operand is neither row-major nor, for the second one, column-major (expanded or sliced views).
     """
 
-    def canonical(t):
+    def row_major(t):
         # Restate the strides of a contiguous operand (those of its size-1 dimensions are arbitrary)
-        if not t.is_contiguous():
-            return t
+        t = t.contiguous()
         return t.as_strided(t.shape, (t.shape[1], 1), t.storage_offset())
 
-    return torch._int_mm(canonical(input.contiguous()), canonical(other))
+    if not other.is_contiguous() and other.t().is_contiguous():
+        # Transposed weights: a column-major operand is supported as is
+        other = other.as_strided(other.shape, (1, other.shape[0]), other.storage_offset())
+    else:
+        # Anything else (expanded or sliced views) is copied
+        other = row_major(other)
+    return torch._int_mm(row_major(input), other)
 
 
 def qbytes_int_mm(activations: torch.Tensor, weights: torch.Tensor, output_scales: torch.Tensor) -> torch.Tensor:
@@ -75,8 +80,9 @@ def qbytes_int8pack_mm(activations: torch.Tensor, weights: torch.Tensor, output_
     if output_scales.numel() == 1:
         # Per-tensor weights: the kernel still expects one scale per output feature
         output_scales = output_scales.expand(weights.shape[0]).contiguous()
-    # torch._weight_int8pack_mm requires activations that are contiguous on the last dimension
+    # torch._weight_int8pack_mm requires activations that are contiguous on the last dimension, and contiguous weights
     activations = activations.contiguous()
+    weights = weights.contiguous()
     if activations.ndim == 2:
         return torch._weight_int8pack_mm(activations, weights, output_scales)
     else:
